@@ -17,6 +17,8 @@ def _ret(scope, new):
     return fn
 
 
+LIT = 'beartype/door/_cls/pep/doorpep586.py'
+
 VARIANTS = {
     # ---- R1 children coherence -----------------------------------------------------------------
     'len-counts-raw-args': tseeded(SUP, _ret('TypeHint.__len__', 'return len(self._args)'), 'C19.R1',
@@ -49,6 +51,10 @@ VARIANTS = {
         t, lambda n: isinstance(n, ast.UnaryOp) and ast.unparse(n) == 'not self._metahint_wrapper.is_subhint(branch._metahint_wrapper)',
         lambda n: expr('not self._metahint_wrapper <= branch._metahint_wrapper'), scope='_is_subhint_branch'),
         'the subhint test spelled as a comparison of wrappers'),
+    # ---- R11 ---------------------------------------------------------------------------------------------------
+    'literal-wrapper-eq-without-hash': tseeded(LIT, lambda t: (find_def(t, 'LiteralTypeHint').body.append(
+        stmts('def __eq__(self, other):\n    return self is other')[0]) or True), 'C19.R11',
+        'wrappers of Literal hints become unhashable (seeded C19-23)'),
     # ---- neutral -----------------------------------------------------------------------------------------
     # ---- R10 union subhint by interpretation -------------------------------------------------------------
     'union-subhint-no-descent-into-unionlike-member': tseeded(UNI, _ret(
